@@ -36,6 +36,10 @@ func genC17(r *Rng, k int, tier string) *RunSpec {
 		var out []interface{}
 		for i, n := 0, r.Intn(3); i < n; i++ {
 			id := Pick(r, pool)
+			if r.Intn(30) == 0 {
+				out = append(out, J{"type": "Person", "name": "somebody without an id"}) // cannot be forwarded as asked; seen all the same
+				continue
+			}
 			if r.Intn(8) == 0 {
 				// the sender writes the addressed value out as an object of its own making: what counts is what THIS server
 				// stores under that id (its type, its members), not the sender's copy
@@ -86,6 +90,11 @@ func genC17(r *Rng, k int, tier string) *RunSpec {
 			d := cloneJ(v)
 			d["@context"] = asCtx
 			st.W.Remote = append(st.W.Remote, DocSpec{id, mustJSON(d)})
+			if r.Intn(4) == 0 {
+				// referred to by an IRI that points into the document (a fragment); served all the same
+				st.W.Remote = append(st.W.Remote, DocSpec{id + "#c7", mustJSON(d)})
+				id += "#c7"
+			}
 			if r.Intn(6) == 0 {
 				st.W.Fate[id] = Pick(r, []string{"unreachable", "unknowntype", "nocontext", "notype"}) // (bytes that are no JSON at all are C11's matter, see Assumptions)
 			}
@@ -273,6 +282,75 @@ func oracleC17(c *DriveCtx, res *Result) {
 				reached++
 			}
 		}
+		// an addressee that has no id makes forwarding impossible as asked (the delivery that finds out fails, a later one sees the
+		// activity as known); inside the statement's "in every case" the activity is recorded as seen exactly once all the same
+		anon := false
+		for _, p := range []string{"to", "cc", "audience"} {
+			for _, e := range aslist(g.body[p]) {
+				if idOf(e) == "" {
+					anon = true
+				}
+			}
+		}
+		if anon {
+			s.probe("c17-anonymous-addressee")
+			if len(res.Spec.Faults) == 0 && before[actID] == "" {
+				n, blocked, ranPostInbox := 0, false, false
+				for _, e := range s.Log {
+					if !inTask[e.Task] {
+						continue
+					}
+					if e.Kind == "db.Create" && e.ID == actID && !e.Fault {
+						n++
+					}
+					if e.Kind == "app.Blocked" && e.Res != "false" {
+						blocked = true
+					}
+					if e.Kind == "db.SetInbox" {
+						ranPostInbox = true
+					}
+				}
+				if ranPostInbox && !blocked {
+					// reference: the same run without the id-less addressees tells whether these deliveries get as far as
+					// inbox forwarding at all (the side effects before it may refuse the activity for reasons of their own)
+					ref := res.Spec.Clone()
+					ref.Gen += " [without id-less addressees]"
+					for i := range ref.Requests {
+						if b, err := parseJ(ref.Requests[i].Body); err == nil && idOf(b) == actID {
+							for _, p := range []string{"to", "cc", "audience"} {
+								var keep []interface{}
+								for _, e := range aslist(b[p]) {
+									if idOf(e) != "" {
+										keep = append(keep, e)
+									}
+								}
+								if _, had := b[p]; had {
+									if keep == nil {
+										delete(b, p)
+									} else {
+										b[p] = keep
+									}
+								}
+							}
+							ref.Requests[i].Body = mustJSON(b)
+						}
+					}
+					rr := Execute(c.T, ref)
+					nRef := 0
+					if rr.Harness == "" && rr.Verdict == "" {
+						for _, e := range rr.Sim.Log {
+							if inTask[e.Task] && e.Kind == "db.Create" && e.ID == actID && !e.Fault {
+								nRef++
+							}
+						}
+						if n != nRef {
+							s.violate("C17", "seen-record-count", typeOf(g.body), fmt.Sprintf("%s (an addressee without id) was delivered %d time(s) and recorded as seen %d times; without that addressee it is recorded %d time(s)", actID, len(g.tasks), n, nRef))
+						}
+					}
+				}
+			}
+			continue
+		}
 		if reached == 0 {
 			continue
 		}
@@ -377,7 +455,7 @@ func oracleC17(c *DriveCtx, res *Result) {
 		}
 		out, _ := normalise(filt[0].Arg).(map[string]interface{})
 		var members []string
-		anon := false
+		anon = false
 		for _, cid := range aslist(out["out"]) {
 			members = append(members, collIDs(before[fmt.Sprint(cid)], "")...)
 			for _, e := range collEntries(before[fmt.Sprint(cid)]) {
